@@ -4,7 +4,7 @@ one op:
   {"op":"run",
    "tm":{"schedule":[q..],"dt_init":q,"constant_dt":b,"dt_min":q,"dt_max":q,"iter_low":i,"iter_upp":i,
          "under":q,"over":q,"recomp_factor":q,"recomp_max":i,"rtol":q,"atol":q},
-   "max_it":n,"n_it":n,"n_ts":n,"init":q,"bc_rewind":b,
+   "max_it":n,"n_it":n,"n_ts":n,"init":q,"div_overrules":b,
    "check_tol":null|q,          -- q: flags are computed by the modelled check_convergence from the increments
    "tapes":[[{"inc":q|"nan","c":b,"d":b},...],...]}
   -> {"events":[{"e":tag,"k":n,"c":b,"d":b,"its":[v..],"tss":[v..],"bcit":q,"bcts":[q..],"t":q,"dt":q,"ti":i},...],
@@ -34,17 +34,17 @@ def jIter (tol : Option Rat) (j : Json) : R (Iter Val) := do
     let d ← fBool j "d"
     pure ⟨inc, c, d⟩
 
-def jParams (j : Json) : R TM.Params := do
+def jParams (j : Json) : R PorepyVerif.C09.Params := do
   pure { schedule := ← fRats j "schedule", dtInit := ← fRat j "dt_init", constantDt := ← fBool j "constant_dt",
-         dtMin := ← fRat j "dt_min", dtMax := ← fRat j "dt_max", iterLow := ← fInt j "iter_low",
+         dtMin := ← fRat j "dt_min", dtMax := ← fRat j "dt_max", iterMax := 15, iterLow := ← fInt j "iter_low",
          iterUpp := ← fInt j "iter_upp", underRelax := ← fRat j "under", overRelax := ← fRat j "over",
          recompFactor := ← fRat j "recomp_factor", recompMax := ← fInt j "recomp_max",
          rtol := ← fRat j "rtol", atol := ← fRat j "atol" }
 
-def clockFields (s : TM.State) : List (String × Json) :=
+def clockFields (s : PorepyVerif.C09.TM) : List (String × Json) :=
   [("t", ofRat s.time), ("dt", ofRat s.dt), ("ti", ofInt s.timeIndex)]
 
-def ofEv (e : Ev Val TM.State) : Json :=
+def ofEv (e : Ev Val PorepyVerif.C09.TM) : Json :=
   obj ([("e", Json.str e.tag), ("k", ofNat e.k), ("c", Json.bool e.conv), ("d", Json.bool e.div),
         ("its", ofList ofVal e.sol.its), ("tss", ofList ofVal e.sol.tss),
         ("bcit", ofRat e.bc.it), ("bcts", ofRats e.bc.ts)] ++ clockFields e.clock)
@@ -64,12 +64,12 @@ def runOp (j : Json) : R Json := do
   if op != "run" then throw s!"unknown op {op}" else
   let p ← field j "tm" >>= jParams
   let cfg : Cfg := { maxIt := ← fNat j "max_it", nIt := ← fNat j "n_it", nTs := ← fNat j "n_ts",
-                     bcRewind := ← fBool j "bc_rewind" }
+                     divOverrules := ← fBool j "div_overrules" }
   let v0 ← field j "init" >>= jVal
   let tol ← field j "check_tol" >>= jOpt jRat
   let tapes ← field j "tapes" >>= jList (jList (jIter tol))
   let clk := tmClock p
-  let r := runAll clk cfg (startRun clk cfg v0 (TM.init p)) tapes
+  let r := runAll clk cfg (startRun clk cfg v0 (PorepyVerif.C09.init p)) tapes
   let (st, e) := statusName r.status
   pure (obj ([("events", ofList ofEv r.log), ("status", Json.str st), ("err", e), ("last", Json.str (lastName r.last)),
               ("accepted", ofList ofVal r.accepted), ("acceptedT", ofRats r.acceptedT)] ++ clockFields r.clock))
